@@ -199,7 +199,10 @@ Inductive op :=
 | FinalizeInp (i : nat) (mall : bool)        (* finalize_inp_mut / finalize_inp_mall_mut (and by-value forms) *)
 | Extract.
 
-Inductive tryres := TOk (s w : N) | TErr (e : N).
+(* a failure carries the index the code puts into Error::InputError: `prevouts(psbt)?` inside
+   finalize_input_helper blames the FIRST input whose utxo cannot be found, not the input
+   being finalized *)
+Inductive tryres := TOk (s w : N) | TErr (i : nat) (e : N).
 
 Inductive result :=
 | ROk
@@ -218,6 +221,7 @@ Definition e_missing_witness : N := 1.
 Definition e_nonstd_sighash : N := 2.
 Definition e_wrong_sighash_flag : N := 3.
 Definition e_interp_nonstd_sighash : N := 4.
+Definition e_missing_utxo : N := 22.
 Definition u_oob : N := 1.
 Definition u_missing_input : N := 2.
 Definition u_utxocheck : N := 3.
@@ -230,6 +234,16 @@ Definition is_some {A : Type} (o : option A) : bool := match o with Some _ => tr
 Definition nz (x : N) : option N := if (x =? 0)%N then None else Some x.
 
 Definition is_final (a : pinput) : bool := is_some (i_fsig a) || is_some (i_fwit a).
+
+(* finalizer.rs get_utxo (since /repo 55036e60): when the previous transaction is present it,
+   not witness_utxo, says which output is spent - it must be the transaction the outpoint names
+   and have that output; witness_utxo is used only when no non_witness_utxo is present.
+   None = InputError::MissingUtxo.  get_scriptpubkey, prevouts, sighash_msg go through it. *)
+Definition get_utxo (a : pinput) : option txout :=
+  match i_nwutxo a with
+  | Some nw => if nw_txid_ok nw then nw_out nw else None
+  | None => i_wutxo a
+  end.
 
 (* finalize_input's mutation: mem::take, then restore the two utxo fields and set the finals *)
 (* finalize_input's mutation: mem::take, then restore the two utxo fields and the unknown
@@ -282,16 +296,20 @@ Section Model.
          end.
 
   (* ---- finalizer.rs finalize_input *)
-  Inductive fres := FOk (st : psbt) | FErr (e : N) | FPanic.
+  Inductive fres := FOk (st : psbt) | FErr (i : nat) (e : N) | FPanic.
 
   Definition finalize_input (st : psbt) (i : nat) (mall : bool) : fres :=
     match nth_error (p_inputs st) i with
     | None => FPanic                                   (* psbt.inputs[index] *)
     | Some a =>
         if is_final a then FOk st                      (* "Preserve previously finalized inputs" *)
-        else match try_input st i mall with
-             | TErr e => FErr e                        (* `?` before any mutation *)
-             | TOk s w => FOk (with_inputs st (set_nth i (cleared a s w) (p_inputs st)))
+        else match get_utxo a with
+             | None => FErr i e_missing_utxo           (* get_scriptpubkey(psbt, index) *)
+             | Some _ =>
+                 match try_input st i mall with
+                 | TErr k e => FErr k e                (* `?` before any mutation *)
+                 | TOk s w => FOk (with_inputs st (set_nth i (cleared a s w) (p_inputs st)))
+                 end
              end
     end.
 
@@ -303,7 +321,7 @@ Section Model.
     | i :: r =>
         match finalize_input st i mall with
         | FOk st' => fin_mut_loop mall r st' errs
-        | FErr e => fin_mut_loop mall r st (errs ++ [(i, e)])
+        | FErr k e => fin_mut_loop mall r st (errs ++ [(k, e)])   (* the error's own index *)
         | FPanic => (st, errs, true)
         end
     end.
@@ -322,7 +340,7 @@ Section Model.
     | i :: r =>
         match finalize_input st i mall with
         | FOk st' => fin_old_loop mall r st'
-        | FErr e => (st, RInputErr i e)
+        | FErr k e => (st, RInputErr k e)
         | FPanic => (st, RPanic 1)
         end
     end.
@@ -338,7 +356,7 @@ Section Model.
     if length (p_inputs st) <=? i then (st, RIdxOob)
     else match finalize_input st i (inp_mall mall) with
          | FOk st' => (st', ROk)
-         | FErr e => (st, RInputErr i e)
+         | FErr k e => (st, RInputErr k e)
          | FPanic => (st, RPanic 1)
          end.
 
